@@ -2,12 +2,12 @@
 (* Binding of CurveEdge.tla: the shift and per-row x positions recorded from *)
 (* the real code (hook verif_curve_edge) against Run(E).  "DRIFT": the code  *)
 (* differs from the I-level transcription; "FAR": a recorded position is     *)
-(* farther than TOL (1/64 px) from the true curve.  Neither is a verdict   *)
+(* farther than TOL (1/64 px; 2 px - hairpin edges one pixel tall are legitimately up to ~1.4 px off) from the true curve.  Neither is a verdict   *)
 (* on C08 by itself: the pipeline renders every such edge as a filled shape  *)
 (* and Trace_Curve decides per pixel.                                        *)
 EXTENDS CurveEdgeP, Json, IOUtils, Env
 Rec == ndJsonDeserialize(IOEnv.TRACE)
-TOL == EnvInt("TOL", 48)
+TOL == EnvInt("TOL", 128)
 VARIABLE i
 Init == i \in 1..Len(Rec)
 Next == FALSE /\ UNCHANGED i
